@@ -7,3 +7,4 @@ import PptxModel.Model.Geometry
 import PptxModel.Props.C17
 import PptxModel.Props.C14
 import PptxModel.Props.C04
+import PptxModel.Props.C06
